@@ -200,8 +200,8 @@ let run_pair_pred toks =
        if c01_pair_guarded evs steps then "OK"
        else
          (* report the direction that is not excused *)
-         (match (if c01_kf1_class_dir SA evs || c01_d17_class_dir SA evs then None else bad SB),
-                (if c01_kf1_class_dir SB evs || c01_d17_class_dir SB evs then None else bad SA) with
+         (match (if c01_kf1_class_dir SA evs then None else bad SB),
+                (if c01_kf1_class_dir SB evs then None else bad SA) with
           | Some i, _ -> Printf.sprintf "FAIL %s step=%s reader=b" name (string_of_z i)
           | None, Some i -> Printf.sprintf "FAIL %s step=%s reader=a" name (string_of_z i)
           | None, None -> "FAIL " ^ name)
